@@ -5,14 +5,21 @@ From PTK Require Import Lib.Sx Lib.Py Model.Document Model.BufferEdit Model.C14_
 Import ListNotations.
 Open Scope Z_scope.
 
-Lemma accept_coh c s : Coh (store s) -> Coh (store (fst (validate_and_handle c s))).
+Lemma accept_thr c s : thr (th (fst (validate_and_handle c s))) = thr (th s).
 Proof.
-  intros H. pose proof (core_coh c s OAccept H) as K. cbn [step_core] in K.
+  pose proof (core_thr c s OAccept) as K. cbn [step_core] in K.
+  destruct (validate_and_handle c s) as [s' r]. exact K.
+Qed.
+
+Lemma accept_coh c s :
+  thr (th s) = false -> Coh (store s) -> Coh (store (fst (validate_and_handle c s))).
+Proof.
+  intros Ht H. pose proof (core_coh c s OAccept Ht H) as K. cbn [step_core] in K.
   destruct (validate_and_handle c s) as [s' r]. exact K.
 Qed.
 
 Lemma recall_next_session c s :
-  Coh (store s) -> verdict_ok c s -> stored_skip (sto (store s)) (text s) = false ->
+  thr (th s) = false -> Coh (store s) -> verdict_ok c s -> stored_skip (sto (store s)) (text s) = false ->
   let s1 := fst (validate_and_handle c s) in
   let s2 := pop_all (load_start (reopen s1)) in
   ehs s = false ->
@@ -20,32 +27,36 @@ Lemma recall_next_session c s :
   text (history_backward c s2 1) = text s /\
   wl (history_backward c s2 1) = wl s2.
 Proof.
-  intros Hc Hv Hs s1 s2 He.
-  destruct (accept_history c s Hc Hv) as (_ & St & _). fold s1 in St. rewrite Hs in St.
-  destruct (new_session_clean s1 (accept_coh c s Hc)) as (W & I & _). fold s2 in W, I.
+  intros Ht Hc Hv Hs s1 s2 He.
+  destruct (accept_history c s Ht Hc Hv) as (_ & St & _). fold s1 in St. rewrite Hs in St.
+  assert (Ht1 : thr (th s1) = false) by (unfold s1; rewrite accept_thr; exact Ht).
+  destruct (new_session_clean s1 Ht1 (accept_coh c s Ht Hc)) as (W & I & _). fold s2 in W, I.
   rewrite St in W, I.
   assert (W' : wl s2 = sto (store s) ++ [text s] ++ [[]]) by (rewrite W, <- app_assoc; reflexivity).
   assert (He2 : ehs s2 = false).
   { unfold s2, pop_all.
     assert (E : forall n x, ehs (pop_n n x) = ehs x).
     { induction n; intros x; cbn [pop_n]; [reflexivity|]. rewrite IHn.
-      unfold pop_step. destruct (task x); [|reflexivity]. destruct (tfin x); [reflexivity|].
+      unfold pop_step. destruct (thr (th x)); [reflexivity|].
+      destruct (task x); [|reflexivity]. destruct (tfin x); [reflexivity|].
       destruct (nth_error _ _); reflexivity. }
     rewrite E.
     assert (L : forall x, ehs (load_start x) = ehs x)
-      by (intros x; unfold load_start; destruct (task x); reflexivity).
+      by (intros x; unfold load_start; destruct (task x); [reflexivity|];
+          destruct (thr (th x)); [destruct (tstarted (th x))|]; reflexivity).
     rewrite L. change (ehs (reopen s1)) with (ehs s1).
     destruct (accept_valid c s Hv) as (s' & Ev & _ & K1 & K2).
     unfold s1. rewrite Ev. cbn [fst].
     assert (Ee : ehs s' = ehs s).
     { unfold validate_and_handle in Ev.
-      destruct (validate_frame c s true) as (_ & _ & _ & _ & F).
+      destruct (validate_frame c s true) as (_ & _ & _ & _ & F & _).
       destruct (validate c s true) as [sv okv]; cbn [fst] in F. destruct okv; [|discriminate].
+      assert (AE : forall x, ehs (append_to_history x) = ehs x).
+      { intros x. unfold append_to_history, do_append. destruct (text x); [reflexivity|].
+        destruct (ls (hist_for_get x)); [|destruct (str_eqb _ _)]; try (destruct (thr (th x))); reflexivity. }
       inversion Ev; subst. destruct (keep c).
-      - rewrite <- F. unfold append_to_history. destruct (text sv); [reflexivity|].
-        destruct (ls _); [reflexivity|]. destruct (str_eqb _ _); reflexivity.
-      - unfold reset; proj. rewrite <- F. unfold append_to_history. destruct (text sv); [reflexivity|].
-        destruct (ls _); [reflexivity|]. destruct (str_eqb _ _); reflexivity. }
+      - rewrite AE. exact F.
+      - unfold reset; proj. rewrite AE. exact F. }
     congruence. }
   pose proof (len_nonneg (sto (store s))) as Hn.
   assert (Hw : wi (history_backward c s2 1) = wi s2 - 1).
